@@ -48,6 +48,19 @@ Definition fmt_03d (z : Z) : str :=
   end.
 Definition deny_line (code : Z) (text : str) : str := fmt_03d code ++ 32%N :: text.
 
+(** EventBroker.AddListener / RemoveListener: listeners have names; adding a name that is already registered removes
+    the old entry first and appends the new one AT THE END (loading a Lua script a second time moves the Lua host
+    behind every listener registered meanwhile); removal keeps the order of the others. *)
+Definition chain (E R : Type) := list (str * (E -> option R)).
+Fixpoint chain_remove {E R : Type} (name : str) (c : chain E R) : chain E R :=
+  match c with
+  | [] => []
+  | (n, l) :: c' => if str_eqb n name then c' else (n, l) :: chain_remove name c'
+  end.
+Definition chain_add {E R : Type} (name : str) (l : E -> option R) (c : chain E R) : chain E R :=
+  chain_remove name c ++ [(name, l)].
+Definition chain_emit {E R : Type} (c : chain E R) (e : E) : option R := broker_emit (map snd c) e.
+
 (** What calling a Lua handler (CallByParam with Protect) produced. *)
 Inductive lua_value :=
   | LNil | LFalse | LTrue | LNumber | LString | LTable | LFunction
